@@ -12,6 +12,8 @@
 (*   ref-resolver-signature  an offered parameter does not carry type / default / owner of Ref (a Conditional one  *)
 (*                         is accepted exactly where the transcribed algorithm predicts the documented Conditional) *)
 (*   ref-parser-names, ref-parser-signature   the same for the parser's arguments                                 *)
+(*   ref-resolver-uncond, ref-parser-uncond   (round 4) a parameter offered without the Conditional marker is       *)
+(*                         accepted by every branch of an `if` around two uses of **kwargs                         *)
 (*   ref-deliver           a value parsed for an offered parameter and passed on by instantiate_classes / the call *)
 (*                         did not arrive at the declaration Ref binds that keyword in                             *)
 (*   alg                   the observation differs from the transcribed algorithm (drift when Ref agrees)          *)
@@ -34,8 +36,8 @@ Check(k) ==
       comp == ob.comp
       U    == Universe(P, comp)
       T    == RunTable(P, comp, U)
-      seen == {[K |-> SetOf(r.K), ok |-> r.ok, bind |-> {<<b.n, b.o>> : b \in SetOf(r.bind)}] : r \in SetOf(ob.table)}
-      spec == {[K |-> e.K, ok |-> e.r.ok, bind |-> {<<b.n, b.o>> : b \in e.r.bind}] : e \in T}
+      seen == {[K |-> SetOf(r.K), cv |-> r.cv, ok |-> r.ok, bind |-> {<<b.n, b.o>> : b \in SetOf(r.bind)}] : r \in SetOf(ob.table)}
+      spec == {[K |-> e.K, cv |-> e.cv, ok |-> e.r.ok, bind |-> {<<b.n, b.o>> : b \in e.r.bind}] : e \in T}
       call == Callable(T)
       run  == AlgRun(P, comp)
       dev  == IF call THEN DevOf(run.ev) ELSE "-"
@@ -52,6 +54,8 @@ Check(k) ==
      /\ (~call \/ ~ob.observed \/ (resNames = legal /\ NoDup(res))) \/ Say(k, "ref-resolver-names")
      /\ (~call \/ ~ob.observed \/ resNames # legal
            \/ \A d \in OfferOf(res) : d \in ref \/ (d.d = "cond" /\ (d.n \in algCond \/ dev # "-"))) \/ Say(k, "ref-resolver-signature")
+     /\ (~call \/ ~ob.observed \/ resNames # legal \/ UncondOK(T, OfferOf(res))) \/ Say(k, "ref-resolver-uncond")
+     /\ (~call \/ ~ob.parsed \/ parNames # legal \/ \A j \in DOMAIN par : par[j].d = "cond" \/ par[j].n \in Everywhere(T)) \/ Say(k, "ref-parser-uncond")
      /\ (~call \/ ~ob.observed \/ res = run.ps) \/ Say(k, "alg")
      /\ (~call \/ ~ob.parsed \/ (parNames = legal /\ NoDup(par))) \/ Say(k, "ref-parser-names")
      /\ (~call \/ ~ob.parsed \/ parNames # legal
